@@ -57,7 +57,7 @@ func VxC11FileWrite() {
 	vx.FSFaults(true)
 	info, err := c.WriteLTXFile(context.Background(), level, 2, 2+ltx.TXID(level), bytes.NewReader(data))
 	vx.FSFaults(false)
-	vx.Assert("renamed-file-was-flushed-and-closed", vx.FSEvents("rename-of-") == 0)
+	vx.Assert("renamed-file-was-flushed-and-closed", vx.FSEvents("rename-of-unsynced-file") == 0)
 	if !vxTraceHas("FAIL unlink") {
 		vx.Assert("temp-file-never-survives", !vx.FSExists(final+".tmp"))
 	}
